@@ -972,7 +972,25 @@ func (g *HistGen) genMgmt() {
 			g.createTable(pick(g.r, live).Name)
 		}
 	case 2, 3: // add an index to a table with data
-		if len(live) > 0 {
+		if len(live) > 0 && g.r.Chance(15) {
+			// an index over a key attribute that is in use, declared with another type than it has: the
+			// request must be rejected and the attribute keep its type (or the stored items become unreachable)
+			t := pick(g.r, live)
+			attr := t.Hash
+			if t.Range != nil && g.r.Bool() {
+				attr = *t.Range
+			}
+			if all := append(append([]IndexSpec{}, t.GSI...), t.LSI...); len(all) > 0 && g.r.Chance(40) {
+				attr = pick(g.r, all).Hash
+			}
+			other := "N"
+			if attr[1] == "N" {
+				other = "S"
+			}
+			ix := IndexSpec{Name: fmt.Sprintf("retype%d", len(g.ops)), Hash: [2]string{attr[0], other}}
+			g.ops = append(g.ops, &Op{Op: "updateTable", Table: HexS(t.Name), Retype: true, Changes: []IndexChange{{Create: &IndexDef{Name: HexS(ix.Name), Key: *keyDefOf(ix.Hash, ix.Range), TP: true}}}})
+			g.ops = append(g.ops, &Op{Op: "get", Table: HexS(t.Name), KeyItem: g.knownKey(t)})
+		} else if len(live) > 0 {
 			t := pick(g.r, live)
 			ix := g.newIndexSpecFor(t, fmt.Sprintf("late%d", len(t.GSI)))
 			// an item the new index cannot take (its key attribute has another type): it stays outside the
